@@ -32,3 +32,354 @@ Proof.
   destruct n as [nx ny nz], e as [ex ey ez]. vunf. intros Hn He Hen Hc Hs. cbv zeta. vunf. subst r h.
   nsatz.
 Qed.
+
+(* ---- fit_from_points is a total-least-squares plane, under the eigen-solver contract -------------------- *)
+From PW.proofs Require Import P_mat.
+
+(* what np.linalg.eigh promises for a real symmetric matrix c: c v_i = w_i v_i and the v_i are orthonormal *)
+Definition eig_contract (c : mat3 R) (e : eig3 R) : Prop :=
+  m3apply ROps c (eu0 e) = vscale ROps (ev0 e) (eu0 e) /\
+  m3apply ROps c (eu1 e) = vscale ROps (ev1 e) (eu1 e) /\
+  m3apply ROps c (eu2 e) = vscale ROps (ev2 e) (eu2 e) /\
+  vdot ROps (eu0 e) (eu0 e) = 1 /\ vdot ROps (eu1 e) (eu1 e) = 1 /\ vdot ROps (eu2 e) (eu2 e) = 1 /\
+  vdot ROps (eu0 e) (eu1 e) = 0 /\ vdot ROps (eu0 e) (eu2 e) = 0 /\ vdot ROps (eu1 e) (eu2 e) = 0.
+(* the quadratic form m^T c m *)
+Definition quad (c : mat3 R) (m : vec3 R) : R := vdot ROps m (m3apply ROps c m).
+
+(* an orthonormal triple is a basis: m = (m.u) u + (m.v) v + (m.w) w *)
+Lemma orthonormal_complete (u v w m : vec3 R) :
+  vdot ROps u u = 1 -> vdot ROps v v = 1 -> vdot ROps w w = 1 ->
+  vdot ROps u v = 0 -> vdot ROps u w = 0 -> vdot ROps v w = 0 ->
+  m = vadd ROps (vadd ROps (vscale ROps (vdot ROps m u) u) (vscale ROps (vdot ROps m v) v)) (vscale ROps (vdot ROps m w) w).
+Proof.
+  destruct u as [ux uy uz], v as [vx_ vy_ vz_], w as [wx wy wz], m as [mx my mz]. vunf.
+  intros Huu Hvv Hww Huv Huw Hvw.
+  assert (Ho : m3mul ROps (M3 ux uy uz vx_ vy_ vz_ wx wy wz) (m3transpose (M3 ux uy uz vx_ vy_ vz_ wx wy wz)) = I3 ROps).
+  { mat3_eq; lra. }
+  apply m3_left_inv_right_inv in Ho. munf_in Ho. injection Ho as K1 K2 K3 K4 K5 K6 K7 K8 K9.
+  apply V3_ext.
+  - transitivity (mx * (ux * ux + vx_ * vx_ + wx * wx) + my * (ux * uy + vx_ * vy_ + wx * wy) + mz * (ux * uz + vx_ * vz_ + wx * wz)); [|ring].
+    rewrite K1, K2, K3. ring.
+  - transitivity (mx * (uy * ux + vy_ * vx_ + wy * wx) + my * (uy * uy + vy_ * vy_ + wy * wy) + mz * (uy * uz + vy_ * vz_ + wy * wz)); [|ring].
+    rewrite K4, K5, K6. ring.
+  - transitivity (mx * (uz * ux + vz_ * vx_ + wz * wx) + my * (uz * uy + vz_ * vy_ + wz * wy) + mz * (uz * uz + vz_ * vz_ + wz * wz)); [|ring].
+    rewrite K7, K8, K9. ring.
+Qed.
+
+Lemma m3apply_comb c (u v w : vec3 R) (a b d : R) :
+  m3apply ROps c (vadd ROps (vadd ROps (vscale ROps a u) (vscale ROps b v)) (vscale ROps d w)) =
+  vadd ROps (vadd ROps (vscale ROps a (m3apply ROps c u)) (vscale ROps b (m3apply ROps c v))) (vscale ROps d (m3apply ROps c w)).
+Proof. dm3 c. destruct u, v, w. munf. apply V3_ext; ring. Qed.
+
+Section Rayleigh.
+  Context (c : mat3 R) (u v w : vec3 R) (lu lv lw : R).
+  Context (Eu : m3apply ROps c u = vscale ROps lu u) (Ev : m3apply ROps c v = vscale ROps lv v)
+          (Ew : m3apply ROps c w = vscale ROps lw w).
+  Context (Huu : vdot ROps u u = 1) (Hvv : vdot ROps v v = 1) (Hww : vdot ROps w w = 1)
+          (Huv : vdot ROps u v = 0) (Huw : vdot ROps u w = 0) (Hvw : vdot ROps v w = 0).
+
+  (* spectral form of the quadratic form, and Parseval *)
+  Lemma quad_spectral m :
+    quad c m = lu * (vdot ROps m u * vdot ROps m u) + lv * (vdot ROps m v * vdot ROps m v) + lw * (vdot ROps m w * vdot ROps m w) /\
+    vdot ROps m m = vdot ROps m u * vdot ROps m u + vdot ROps m v * vdot ROps m v + vdot ROps m w * vdot ROps m w.
+  Proof.
+    pose proof (orthonormal_complete u v w m Huu Hvv Hww Huv Huw Hvw) as Hm.
+    set (a := vdot ROps m u) in *. set (b := vdot ROps m v) in *. set (d := vdot ROps m w) in *.
+    split.
+    - unfold quad. rewrite Hm at 2. rewrite m3apply_comb, Eu, Ev, Ew.
+      transitivity (lu * a * vdot ROps m u + lv * b * vdot ROps m v + lw * d * vdot ROps m w).
+      + destruct m, u, v, w. vunf. ring.
+      + fold a b d. ring.
+    - rewrite Hm at 2.
+      transitivity (a * vdot ROps m u + b * vdot ROps m v + d * vdot ROps m w).
+      + destruct m, u, v, w. vunf. ring.
+      + fold a b d. ring.
+  Qed.
+
+  (* Rayleigh quotient: the smallest eigenvalue bounds the form on unit vectors from below ... *)
+  Lemma quad_lower_bound m : lw <= lu -> lw <= lv -> vdot ROps m m = 1 -> lw <= quad c m.
+  Proof.
+    intros H1 H2 Hm. destruct (quad_spectral m) as [Hq Hp]. rewrite Hq. rewrite Hm in Hp.
+    set (a := vdot ROps m u) in *. set (b := vdot ROps m v) in *. set (d := vdot ROps m w) in *. clearbody a b d.
+    pose proof (Rle_0_sqr a) as Ha. pose proof (Rle_0_sqr b) as Hb. unfold Rsqr in *.
+    replace (lu * (a * a) + lv * (b * b) + lw * (d * d))
+      with (lw * (a * a + b * b + d * d) + (lu - lw) * (a * a) + (lv - lw) * (b * b)) by ring.
+    rewrite <- Hp.
+    assert (0 <= (lu - lw) * (a * a)) by (apply Rmult_le_pos; lra).
+    assert (0 <= (lv - lw) * (b * b)) by (apply Rmult_le_pos; lra). lra.
+  Qed.
+  (* ... and a unit vector perpendicular to the two other eigenvectors attains it *)
+  Lemma quad_attained n : vdot ROps n u = 0 -> vdot ROps n v = 0 -> vdot ROps n n = 1 -> quad c n = lw.
+  Proof.
+    intros Hu Hv Hn. destruct (quad_spectral n) as [Hq Hp]. rewrite Hq. rewrite Hn, Hu, Hv in Hp. rewrite Hu, Hv.
+    replace (vdot ROps n w * vdot ROps n w) with 1 by lra. ring.
+  Qed.
+End Rayleigh.
+
+Lemma rayleigh_cross c (u v w : vec3 R) (lu lv lw : R) :
+  m3apply ROps c u = vscale ROps lu u -> m3apply ROps c v = vscale ROps lv v -> m3apply ROps c w = vscale ROps lw w ->
+  vdot ROps u u = 1 -> vdot ROps v v = 1 -> vdot ROps w w = 1 ->
+  vdot ROps u v = 0 -> vdot ROps u w = 0 -> vdot ROps v w = 0 -> lw <= lu -> lw <= lv ->
+  vdot ROps (vcross ROps u v) (vcross ROps u v) = 1 /\
+  forall m, vdot ROps m m = 1 -> quad c (vcross ROps u v) <= quad c m.
+Proof.
+  intros Eu Ev Ew Huu Hvv Hww Huv Huw Hvw H1 H2.
+  assert (Hn : vdot ROps (vcross ROps u v) (vcross ROps u v) = 1).
+  { pose proof (vcross_norm2 u v) as L. unfold vnorm2 in L. rewrite L, Huu, Hvv, Huv. ring. }
+  split; [exact Hn|]. intros m Hm.
+  rewrite (quad_attained c u v w lu lv lw Eu Ev Ew Huu Hvv Hww Huv Huw Hvw (vcross ROps u v)); try assumption.
+  - apply (quad_lower_bound c u v w lu lv lw); assumption.
+  - rewrite vdot_comm. apply vcross_orth_l.
+  - rewrite vdot_comm. apply vcross_orth_r.
+Qed.
+
+Lemma fit_normal_optimal c e : eig_contract c e ->
+  vdot ROps (fit_normal ROps e) (fit_normal ROps e) = 1 /\
+  forall m, vdot ROps m m = 1 -> quad c (fit_normal ROps e) <= quad c m.
+Proof.
+  destruct e as [l0 l1 l2 u0 u1 u2]. unfold eig_contract. cbn [ev0 ev1 ev2 eu0 eu1 eu2].
+  intros (E0 & E1 & E2 & H00 & H11 & H22 & H01 & H02 & H12).
+  assert (H10 : vdot ROps u1 u0 = 0) by (rewrite vdot_comm; exact H01).
+  assert (H20 : vdot ROps u2 u0 = 0) by (rewrite vdot_comm; exact H02).
+  assert (H21 : vdot ROps u2 u1 = 0) by (rewrite vdot_comm; exact H12).
+  unfold fit_normal, argsort3. cbn [ev0 ev1 ev2]. rops.
+  destruct (Rltb_spec l1 l0); [destruct (Rltb_spec l2 l1); [|destruct (Rltb_spec l2 l0)]
+                              |destruct (Rltb_spec l2 l0); [|destruct (Rltb_spec l2 l1)]];
+    cbn [eig_col eu0 eu1 eu2].
+  - apply (rayleigh_cross c u0 u1 u2 l0 l1 l2); try assumption; lra.
+  - apply (rayleigh_cross c u0 u2 u1 l0 l2 l1); try assumption; lra.
+  - apply (rayleigh_cross c u2 u0 u1 l2 l0 l1); try assumption; lra.
+  - apply (rayleigh_cross c u1 u0 u2 l1 l0 l2); try assumption; lra.
+  - apply (rayleigh_cross c u1 u2 u0 l1 l2 l0); try assumption; lra.
+  - apply (rayleigh_cross c u2 u1 u0 l2 l1 l0); try assumption; lra.
+Qed.
+
+(* ---- sums over the point list ------------------------------------------------------------------------- *)
+Lemma fold_plus_acc l : forall a, fold_left Rplus l a = a + fold_left Rplus l 0.
+Proof.
+  induction l as [|x l IH]; intros a; cbn [fold_left]; [ring|]. rewrite IH, (IH (0 + x)). ring.
+Qed.
+Lemma nsum_cons x l : nsum ROps (x :: l) = x + nsum ROps l.
+Proof. unfold nsum. rops. cbn [fold_left]. rewrite fold_plus_acc. ring. Qed.
+Lemma nsum_nil : nsum ROps [] = 0.
+Proof. reflexivity. Qed.
+
+(* sum of squared distances of the points to the plane through c with (unit) normal m *)
+Definition ssd (ps : list (vec3 R)) (c m : vec3 R) : R :=
+  nsum ROps (map (fun p => vdot ROps (vsub ROps p c) m * vdot ROps (vsub ROps p c) m) ps).
+(* scatter matrix: sums of products of the centred coordinates *)
+Definition scatter_entry (ps : list (vec3 R)) (c : vec3 R) (i j : nat) : R :=
+  nsum ROps (map (fun p => vget (vsub ROps p c) i * vget (vsub ROps p c) j) ps).
+Definition scatter (ps : list (vec3 R)) (c : vec3 R) : mat3 R :=
+  M3 (scatter_entry ps c 0 0) (scatter_entry ps c 0 1) (scatter_entry ps c 0 2)
+     (scatter_entry ps c 1 0) (scatter_entry ps c 1 1) (scatter_entry ps c 1 2)
+     (scatter_entry ps c 2 0) (scatter_entry ps c 2 1) (scatter_entry ps c 2 2).
+
+Lemma ssd_is_quad ps c m : ssd ps c m = quad (scatter ps c) m.
+Proof.
+  unfold quad, scatter, ssd, scatter_entry. destruct m as [mx my mz], c as [cx cy cz].
+  induction ps as [|[px py pz] ps IH].
+  - cbn [map]. rewrite !nsum_nil. munf. ring.
+  - cbn [map]. rewrite !nsum_cons, IH. cbn [vget]. munf. ring.
+Qed.
+
+Lemma cov_is_scatter ps m : nlen ROps ps - 1 <> 0 ->
+  quad (scatter ps (centroid ROps ps)) m = (nlen ROps ps - 1) * quad (cov ROps ps) m.
+Proof.
+  intros Hn. unfold quad, cov, cov_entry, scatter, scatter_entry, n1. rops.
+  set (k := nlen ROps ps - 1) in *. clearbody k.
+  repeat match goal with |- context [nsum ROps ?l] => let s := fresh "s" in set (s := nsum ROps l) in * end.
+  destruct m as [mx my mz]. munf. field. exact Hn.
+Qed.
+
+Theorem fit_is_least_squares eigh ps : (2 <= length ps)%nat ->
+  eig_contract (cov ROps ps) (eigh (cov ROps ps)) ->
+  exists pl, fit_from_points ROps eigh ps = Ok pl /\ pref pl = centroid ROps ps /\ unit_normal pl /\
+    forall m, vnorm2 ROps m = 1 ->
+      ssd ps (centroid ROps ps) (pnormal pl) <= ssd ps (centroid ROps ps) m.
+Proof.
+  intros Hlen Hc. destruct (fit_normal_optimal _ _ Hc) as [Hn Hopt].
+  set (n := fit_normal ROps (eigh (cov ROps ps))) in *.
+  exists (MkPlane (centroid ROps ps) n). split; [|split; [reflexivity|split; [exact Hn|]]].
+  - unfold fit_from_points. fold n. apply ctor_unit; [apply Rlt_le, default_atol_value|exact Hn].
+  - intros m Hm. cbn [pnormal].
+    assert (Hk : 0 < nlen ROps ps - 1).
+    { unfold nlen. rops. assert (2 <= IZR (Z.of_nat (length ps))) by (apply IZR_le; lia). lra. }
+    rewrite !ssd_is_quad, !cov_is_scatter by lra.
+    apply Rmult_le_compat_l; [lra|]. apply Hopt. exact Hm.
+Qed.
+
+(* ---- Plane.tilted: the full argument ------------------------------------------------------------------ *)
+Lemma vnormalize_of_unit a : vdot ROps a a = 1 -> vnormalize ROps a = a.
+Proof.
+  intros H. unfold vnormalize. rewrite (vnorm_of_unit a H). destruct a. vunf. apply V3_ext; field.
+Qed.
+Lemma vg_reject_perp v a : vdot ROps a a = 1 -> vdot ROps v a = 0 -> vg_reject ROps v a = v.
+Proof.
+  intros Ha Hv. unfold vg_reject. rewrite (vnormalize_of_unit a Ha), Hv. destruct v, a. vunf. apply V3_ext; ring.
+Qed.
+
+Section TiltCore.
+  Context (n vo vn : vec3 R) (h : R).
+  Context (Hnn : vdot ROps n n = 1) (Hon : vdot ROps vo n = 0) (Hne : vo <> V3 0 0 0)
+          (Hvn : vn = vadd ROps vo (vscale ROps h n)).
+  Let r := vnorm ROps vo.
+  Let k := vnorm ROps vn.
+  Let e := vscale ROps (/ r) vo.
+  Let a := vcross ROps e n.
+  Let axis := vnormalize ROps (vcross ROps vo n).
+
+  Lemma tc_r : 0 < r /\ r * r = vdot ROps vo vo.
+  Proof. split; [apply vnorm_pos; exact Hne|apply vnorm_sq]. Qed.
+  Lemma tc_k : 0 < k /\ k * k = r * r + h * h.
+  Proof.
+    destruct tc_r as [Hr Hrr].
+    assert (E : vdot ROps vn vn = r * r + h * h).
+    { rewrite Hrr, Hvn. revert Hnn Hon. destruct vo, n. vunf. intros Hnn Hon. nsatz. }
+    assert (Hk : k * k = r * r + h * h) by (unfold k; rewrite vnorm_sq; exact E).
+    split; [|exact Hk]. pose proof (vnorm_nonneg vn) as H0. fold k in H0.
+    destruct (Rle_lt_or_eq_dec _ _ H0) as [Hp|Hz]; [exact Hp|]. rewrite <- Hz in Hk. nra.
+  Qed.
+  Lemma tc_e : vdot ROps e e = 1 /\ vdot ROps e n = 0 /\ vscale ROps r e = vo.
+  Proof.
+    destruct tc_r as [Hr Hrr]. unfold e. repeat split.
+    - rewrite vdot_scale_l, vdot_scale_r, <- Hrr. field. lra.
+    - rewrite vdot_scale_l, Hon. ring.
+    - destruct vo. vunf. apply V3_ext; field; lra.
+  Qed.
+  Lemma tc_axis : axis = a /\ vnorm ROps (vcross ROps vo n) = r.
+  Proof.
+    destruct tc_r as [Hr Hrr].
+    assert (Hc : vnorm ROps (vcross ROps vo n) = r).
+    { unfold vnorm. rops. rewrite vcross_norm2. unfold vnorm2. rewrite <- Hrr, Hnn, Hon.
+      replace (r * r * 1 - 0 * 0) with (r * r) by ring. apply sqrt_square. lra. }
+    split; [|exact Hc]. unfold axis, vnormalize. rewrite Hc. unfold a, e. destruct vo, n. vunf. apply V3_ext; field; lra.
+  Qed.
+  Lemma tc_a : vdot ROps a a = 1 /\ vdot ROps vo a = 0 /\ vdot ROps n a = 0 /\ vdot ROps vn a = 0 /\ vdot ROps a n = 0.
+  Proof.
+    destruct tc_e as (Hee & Hen & Hre). unfold a.
+    assert (H1 : vdot ROps (vcross ROps e n) (vcross ROps e n) = 1).
+    { pose proof (vcross_norm2 e n) as L. unfold vnorm2 in L. rewrite L, Hee, Hnn, Hen. ring. }
+    assert (H2 : vdot ROps vo (vcross ROps e n) = 0) by (rewrite <- Hre, vdot_scale_l, vcross_orth_l; ring).
+    assert (H3 : vdot ROps n (vcross ROps e n) = 0) by apply vcross_orth_r.
+    repeat split; try assumption.
+    - rewrite Hvn, vdot_add_l, vdot_scale_l, H2, H3. ring.
+    - rewrite vdot_comm. exact H3.
+  Qed.
+
+  Let x := r / k.
+  Lemma tc_x : 0 < x <= 1 /\ k * x = r.
+  Proof.
+    destruct tc_r as [Hr _]. destruct tc_k as [Hk Hkk]. unfold x. split; [|field; lra].
+    split; [apply Rdiv_lt_0_compat; assumption|]. apply Rmult_le_reg_r with k; [exact Hk|].
+    replace (r / k * k) with r by (field; lra). nra.
+  Qed.
+  Lemma tc_cos : vg_angle_cos ROps vo vn axis = x.
+  Proof.
+    destruct tc_axis as [-> _]. destruct tc_a as (Haa & Hoa & _ & Hna & _).
+    unfold vg_angle_cos. rewrite (vg_reject_perp vo a Haa Hoa), (vg_reject_perp vn a Haa Hna). rops. fold r k.
+    destruct tc_r as [Hr Hrr]. destruct tc_k as [Hk _].
+    replace (vdot ROps vo vn) with (r * r); [unfold x; field; lra|].
+    rewrite Hrr, Hvn. revert Hon. destruct vo, n. vunf. intros Hon. nsatz.
+  Qed.
+  Lemma tc_sign : vdot ROps (vcross ROps vo vn) axis = h * r.
+  Proof.
+    destruct tc_axis as [_ Hc]. destruct tc_r as [Hr Hrr]. unfold axis, vnormalize. rewrite Hc.
+    assert (Hcc : vdot ROps (vcross ROps vo n) (vcross ROps vo n) = r * r).
+    { pose proof (vcross_norm2 vo n) as L. unfold vnorm2 in L. rewrite L, <- Hrr, Hnn, Hon. ring. }
+    rewrite Hvn. revert Hcc. generalize r Hr. intros r0 Hr0. destruct vo, n. vunf. intros Hcc.
+    replace ((vy * (vz + h * vz0) - vz * (vy + h * vy0)) * ((vy * vz0 - vz * vy0) / r0) +
+             (vz * (vx + h * vx0) - vx * (vz + h * vz0)) * ((vz * vx0 - vx * vz0) / r0) +
+             (vx * (vy + h * vy0) - vy * (vx + h * vx0)) * ((vx * vy0 - vy * vx0) / r0))
+      with (h * ((vy * vz0 - vz * vy0) * (vy * vz0 - vz * vy0) + (vz * vx0 - vx * vz0) * (vz * vx0 - vx * vz0) +
+                 (vx * vy0 - vy * vx0) * (vx * vy0 - vy * vx0)) / r0) by (field; lra).
+    rewrite Hcc. field. lra.
+  Qed.
+
+  (* cosine and sine of vg.signed_angle(vo, vn, look=axis) *)
+  Lemma tc_trig : let ang := vg_signed_angle ROps vo vn axis in k * cos ang = r /\ k * sin ang = h.
+  Proof.
+    destruct tc_r as [Hr _]. destruct tc_k as [Hk Hkk]. destruct tc_x as [[Hx0 Hx1] Hkx].
+    cbv zeta. unfold vg_signed_angle. rewrite tc_sign, tc_cos.
+    assert (Hclip : nclip ROps x = x).
+    { unfold nclip, n1. rops. rcase; [lra|]. rcase; [lra|reflexivity]. }
+    rewrite Hclip. rops.
+    assert (Hc : cos (acos x) = x) by (apply cos_acos; lra).
+    assert (Hs : sin (acos x) = sqrt (1 - x²)) by (apply sin_acos; lra).
+    set (s0 := sqrt (1 - x²)) in *.
+    assert (Hs0 : 0 <= s0) by apply sqrt_pos.
+    assert (Hs2 : s0 * s0 = 1 - x * x).
+    { unfold s0. rewrite sqrt_sqrt; [unfold Rsqr; ring|]. unfold Rsqr. nra. }
+    assert (Hks : (k * s0) * (k * s0) = h * h).
+    { replace (k * s0 * (k * s0)) with (k * k * (s0 * s0)) by ring. rewrite Hs2.
+      replace (k * k * (1 - x * x)) with (k * k - (k * x) * (k * x)) by ring. rewrite Hkx, Hkk. ring. }
+    unfold nsign. rops.
+    destruct (Rltb_spec 0 (h * r)) as [Hp|Hnp].
+    - (* h > 0 *) cbn [Z.eqb]. rewrite Hc, Hs. split; [exact Hkx|].
+      assert (0 < h) by nra. assert (0 <= k * s0) by (apply Rmult_le_pos; lra). nra.
+    - destruct (Rltb_spec (h * r) 0) as [Hneg|Hz].
+      + (* h < 0 *) cbn [Z.eqb Pos.eqb]. rewrite cos_neg, sin_neg, Hc, Hs. split; [exact Hkx|].
+        assert (h < 0) by nra. assert (0 <= k * s0) by (apply Rmult_le_pos; lra). nra.
+      + (* h = 0 *) cbn [Z.eqb]. rewrite Hc, Hs. split; [exact Hkx|].
+        assert (h = 0) by nra. subst h. assert (0 <= k * s0) by (apply Rmult_le_pos; lra). nra.
+  Qed.
+
+  Lemma tc_defined :
+    vnorm ROps (vcross ROps vo n) <> 0 /\ vnorm ROps axis <> 0 /\
+    vnorm ROps (vg_reject ROps vo axis) <> 0 /\ vnorm ROps (vg_reject ROps vn axis) <> 0.
+  Proof.
+    destruct tc_axis as [Hax Hc]. destruct tc_a as (Haa & Hoa & _ & Hna & _). destruct tc_r as [Hr _]. destruct tc_k as [Hk _].
+    rewrite Hc, Hax, (vg_reject_perp vo a Haa Hoa), (vg_reject_perp vn a Haa Hna), (vnorm_of_unit a Haa).
+    fold r k. repeat split; lra.
+  Qed.
+
+  Theorem tilt_core :
+    let ang := vg_signed_angle ROps vo vn axis in
+    let n' := vg_rotate_cs ROps n axis (cos ang) (sin ang) in
+    vdot ROps n' n' = 1 /\ vdot ROps n' vn = 0.
+  Proof.
+    cbv zeta. destruct tc_trig as [Hc Hs]. cbv zeta in Hc, Hs.
+    set (c := cos (vg_signed_angle ROps vo vn axis)) in *. set (s := sin (vg_signed_angle ROps vo vn axis)) in *.
+    destruct tc_axis as [Hax _]. destruct tc_a as (Haa & _ & _ & _ & Han). destruct tc_e as (Hee & Hen & Hre).
+    destruct tc_k as [Hk Hkk].
+    unfold vg_rotate_cs. rewrite Hax, (vnormalize_of_unit a Haa). rops. split.
+    - assert (Hcs : c * c + s * s = 1).
+      { apply Rmult_eq_reg_l with (k * k); [|nra].
+        replace (k * k * (c * c + s * s)) with ((k * c) * (k * c) + (k * s) * (k * s)) by ring. rewrite Hc, Hs, Hkk. ring. }
+      unfold a. clear Hc Hs Hax Haa Han Hre. revert Hnn Hee Hen Hcs. generalize e. intros e0.
+      destruct e0 as [ex ey ez], n as [nx ny nz]. vunf. intros Hnn Hee Hen Hcs. nsatz.
+    - replace vn with (vadd ROps (vscale ROps r e) (vscale ROps h n)) by (rewrite Hre; symmetry; exact Hvn).
+      exact (tilt_algebra n e r h k c s Hnn Hee Hen Hc Hs).
+  Qed.
+End TiltCore.
+
+Theorem tilted_contains_both pl newp cop :
+  unit_normal pl -> plane_sd ROps pl cop = 0 -> tilt_old ROps pl newp cop <> V3 0 0 0 ->
+  exists pl', tilted ROps pl newp cop = Ok pl' /\ pref pl' = cop /\ unit_normal pl' /\
+    plane_sd ROps pl' cop = 0 /\ plane_sd ROps pl' newp = 0.
+Proof.
+  intros Hu Hcop Hne. unfold unit_normal, vnorm2 in Hu.
+  set (n := pnormal pl) in *. set (vo := tilt_old ROps pl newp cop) in *.
+  set (vn := tilt_new ROps newp cop). set (h := plane_sd ROps pl newp).
+  assert (Hproj : vo = vsub ROps (vsub ROps newp (vscale ROps h n)) cop).
+  { unfold vo, tilt_old. rewrite project_moves_along_normal. reflexivity. }
+  assert (Hvn : vn = vadd ROps vo (vscale ROps h n)).
+  { rewrite Hproj. unfold vn, tilt_new. destruct newp, cop, n. vunf. apply V3_ext; ring. }
+  assert (Hon : vdot ROps vo n = 0).
+  { assert (E : vdot ROps (vsub ROps newp cop) n = h - plane_sd ROps pl cop).
+    { unfold h. rewrite !sd_is_dot. fold n. destruct newp, cop, (pref pl), n. vunf. ring. }
+    rewrite Hcop in E. rewrite Hproj. revert E Hu. destruct newp, cop, n. vunf. intros E Hu. nsatz. }
+  destruct (tc_defined n vo vn h Hu Hon Hne Hvn) as (D1 & D2 & D3 & D4).
+  destruct (tilt_core n vo vn h Hu Hon Hne Hvn) as [Hn1 Hn2]. cbv zeta in Hn1, Hn2.
+  unfold tilted, tilted_cs.
+  assert (Hdef : tilt_defined ROps pl newp cop = true).
+  { unfold tilt_defined, tilt_axis, n0. rops. fold n vo vn.
+    repeat match goal with |- context [Reqb ?u 0] => destruct (Reqb_spec u 0) as [Ez|_]; [contradiction|] end.
+    reflexivity. }
+  rewrite Hdef. unfold tilt_angle, tilt_axis. fold n vo vn. rops.
+  set (n' := vg_rotate_cs ROps n (vnormalize ROps (vcross ROps vo n)) _ _) in *.
+  exists (MkPlane cop n'). split; [apply ctor_unit; [apply Rlt_le, default_atol_value|exact Hn1]|].
+  split; [reflexivity|]. split; [exact Hn1|]. rewrite !sd_is_dot. cbn [pref pnormal]. split.
+  - destruct cop, n'. vunf. ring.
+  - fold (tilt_new ROps newp cop). fold vn. rewrite vdot_comm. exact Hn2.
+Qed.
